@@ -3,7 +3,7 @@
 # and compares with the stable-pass list of /root/.vp/BASELINE.json.
 # usage: tools/baseline.sh [repo-dir]
 REPO=${1:-/repo}
-export GOFLAGS=-mod=mod GOPROXY=off GOSUMDB=off GOTOOLCHAIN=local GOWORK=off
+export GOFLAGS="-mod=mod -trimpath" GOPROXY=off GOSUMDB=off GOTOOLCHAIN=local GOWORK=off
 OUT=$(mktemp)
 (cd "$REPO" && go test -json -vet=off -count=1 -timeout 25m ./... > "$OUT" 2>/dev/null)
 python3 - "$OUT" <<'PY'
